@@ -157,7 +157,18 @@ def hang_search(obligation, repo):
         pools.append(pool)
     signal.signal(signal.SIGALRM, _alarm)
     tried = 0
-    for args in itertools.islice(itertools.product(*pools), 600):
+    # every value of every pool once with the other parameters at their first value (so that a long pool is not cut off by the product
+    # order), then the product
+    plan, seen_plan = [], set()
+    for k, pool in enumerate(pools):
+        for v in pool:
+            plan.append(tuple(v if j == k else pools[j][0] for j in range(len(pools))))
+    plan = plan[:900] + list(itertools.islice(itertools.product(*pools), 400))
+    for args in plan:
+        key = repr(args)[:4000]
+        if key in seen_plan:
+            continue
+        seen_plan.add(key)
         tried += 1
         signal.alarm(3)
         try:
@@ -441,6 +452,12 @@ def record_payloads():
     for v in (0, 1, 2, 3, 0x7FFF, 0x8000, 0xFFFE, 0xFFFF):
         for marker in (0xE0, 0xC0, 0xDB, 0xDA, 0xFE):
             yield f"jpeg:segment-{marker:02x}-length-{v:04x}", b"\xff\xd8\xff" + bytes([marker]) + struct.pack(">H", v) + b"JFIF\x00" + b"\x00" * 12 + b"\xff\xd9" + tail
+    # OfficeArt / PowerPoint / BIFF-drawing records: 8-byte header (ver+instance u16, type u16, length u32 little-endian), atoms and
+    # containers, behind one well-formed record so that a walker is already in step when it meets the hostile length
+    good = struct.pack("<HHI", 0x0000, 0x0FA8, 4) + b"abcd"
+    for v in BOUNDARY32:
+        for verinst, typ in ((0x0000, 0x0FA8), (0x000F, 0x03E8), (0x6E00, 0xF01E), (0x46A0, 0xF01D)):
+            yield f"rec8:record-{verinst:04x}-{typ:04x}-length-{v:08x}", good + struct.pack("<HHI", verinst, typ, v) + b"\x00" * 40 + good
     for v in BOUNDARY32:
         yield f"dib:header-size-{v:08x}", struct.pack("<IiiHHII", v, 1, 1, 1, 24, 0, 4) + b"\x00" * 24
         yield f"dib:image-size-{v:08x}", struct.pack("<IiiHHII", 40, 1, 1, 1, 24, 0, v) + b"\x00" * 24
@@ -484,11 +501,22 @@ def ole_record_cases(repo, key, payloads=None):
                 ole.close()
             except Exception:  # noqa
                 continue
-            for where in ("end", "middle"):
-                for label, pl in payloads:
+            # one payload per file when the payloads were chosen by the caller (a witness to carry), otherwise packs of 12 laid out one
+            # after the other on 4-byte boundaries: a scanning walker meets each of them, the file count stays small
+            per = 1 if len(payloads) <= 4 else 12
+            packs = []
+            for g in range(0, len(payloads), per):
+                grp = payloads[g:g + per]
+                blob = b""
+                for (_l, pl) in grp:
+                    blob += pl + b"\x00" * ((-len(pl)) % 4 + 4)
+                lab = grp[0][0] if per == 1 else f"{grp[0][0]} .. {grp[-1][0]} ({len(grp)} records)"
+                packs.append((lab, blob))
+            for where in ("end", "middle", "start"):            # "start": a walker that begins at offset 0 is in step with the records
+                for label, pl in packs:
                     if len(pl) + 64 > len(content) // 2:
                         continue
-                    at = len(content) - len(pl) if where == "end" else (len(content) // 2) & ~3
+                    at = len(content) - len(pl) if where == "end" else ((len(content) // 2) & ~3 if where == "middle" else 0)
                     new = content[:at] + pl + content[at + len(pl):]
                     buf = io.BytesIO(data)
                     try:
